@@ -2,6 +2,8 @@
 From Coq Require Import String.
 From Cvg Require Import Base Re Unicode Matcher.
 From Cvg.proofs Require Import ReFuelProofs MatcherProofs.
+From Cvg Require Import GoLib GoTypes GoFuns.
+From Cvg.proofs Require Import MatcherTieProofs.
 Open Scope N_scope.
 
 (** :map / :conv / :literal paths (IdentMatcher): equality under the exact rule,
@@ -65,3 +67,32 @@ Example C19_examples :
   pure_match (s2b "User.Name") (s2b "UserXName") true = MBool false /\
   validity_case_independent (s2b "/\pL/").
 Proof. vm_compute. repeat split; intros; discriminate. Qed.
+
+(** Tie to the source. [GoNode.IdentMatcher_Match], [NameMatcher_Match] and
+    [FieldConverter_Match] are /repo's pkg/option ident_matcher.go, name_matcher.go and
+    field_converter.go translated statement by statement into gen/GoFuns.v on every run
+    (strings.EqualFold is the model's [str_equal_fold], validated against Go by this check):
+    the identifier matcher the theorems above speak about is what the Go code computes; a name
+    matcher is the conjunction of its two identifier matchers; a :conv entry is looked up
+    case-sensitively whatever the case rule. *)
+Theorem C19_ident_matcher_is_the_go_code :
+  forall pattern paths ident exact,
+    GoNode.IdentMatcher_Match {| GoNode.IdentMatcher_pattern := pattern; GoNode.IdentMatcher_paths := paths |} ident exact
+    = ident_match pattern ident exact.
+Proof. exact ident_match_tie. Qed.
+Print Assumptions C19_ident_matcher_is_the_go_code.
+
+Theorem C19_name_matcher_is_the_go_code :
+  forall sm dm pos src dst exact,
+    GoNode.NameMatcher_Match {| GoNode.NameMatcher_src := sm; GoNode.NameMatcher_dst := dm; GoNode.NameMatcher_pos := pos |} src dst exact
+    = ident_match (GoNode.IdentMatcher_pattern sm) src exact && ident_match (GoNode.IdentMatcher_pattern dm) dst exact.
+Proof. exact name_matcher_tie. Qed.
+Print Assumptions C19_name_matcher_is_the_go_code.
+
+Theorem C19_converter_lookup_is_case_sensitive :
+  forall c src dst,
+    GoNode.FieldConverter_Match c src dst
+    = str_eqb (GoNode.IdentMatcher_pattern (GoNode.NameMatcher_src (GoNode.FieldConverter_m c))) src
+      && str_eqb (GoNode.IdentMatcher_pattern (GoNode.NameMatcher_dst (GoNode.FieldConverter_m c))) dst.
+Proof. exact converter_match_tie. Qed.
+Print Assumptions C19_converter_lookup_is_case_sensitive.
